@@ -115,8 +115,41 @@ theorem resolveJoinOld_eq_simple (c : Catalog) (parts : List Name) (h : agreeCla
     simp only [agreeClass, decide_eq_true_eq] at h
     simp [resolveJoinOld, resolveSimple, h]
 
+/-- the two resolvers, transcribed independently from their own sources, agree on every identifier operand -/
 theorem resolveJoin_eq_simple (c : Catalog) (parts : List Name) :
-    resolveJoin c parts = resolveSimple c parts := rfl
+    resolveJoin c parts = resolveSimple c parts := by
+  match parts with
+  | [] => cases h : c.defaultNs <;> simp [resolveJoin, resolveTable, resolveTableCore, resolveSimple, h]
+  | [p] => cases h : c.defaultNs <;> simp [resolveJoin, resolveTable, resolveTableCore, resolveSimple, h]
+  | p :: q :: r =>
+    by_cases hp : lower p ∈ c.databases
+    · simp [resolveJoin, resolveTable, resolveTableCore, resolveSimple, hp]
+    · cases h : c.defaultNs <;> simp [resolveJoin, resolveTable, resolveTableCore, resolveSimple, hp, h]
+
+/-- what else `resolve_table` reports: the bare-name flag, and the aliases — for an unaliased table every
+suffix of its written name, lower-cased (the last one is the table's own name); for an aliased one the alias only -/
+theorem resolveTable_bare (c : Catalog) (parts : List Name) (alias : Option (List Name)) (sub : Bool) (ti : TableInfo)
+    (h : resolveTable c parts alias sub = some ti) : ti.bareName = (parts.length == 1) := by
+  simp only [resolveTable] at h
+  split at h
+  · simp at h
+  · simp only [Option.some.injEq] at h; subst h; rfl
+
+theorem resolveTable_aliases (c : Catalog) (parts : List Name) (alias : Option (List Name)) (sub : Bool) (ti : TableInfo)
+    (h : resolveTable c parts alias sub = some ti) :
+    ti.aliases = match alias with
+      | some a => [a.map lower]
+      | none => (List.range parts.length).map fun i => (parts.drop i).map lower := by
+  cases alias <;>
+  · simp only [resolveTable] at h
+    split at h
+    · simp at h
+    · simp only [Option.some.injEq] at h; subst h; rfl
+
+/-- a sub-select operand is never refused, even without a default namespace -/
+theorem resolveTable_sub (c : Catalog) (parts : List Name) (alias : Option (List Name)) :
+    (resolveTable c parts alias true).isSome = true := by
+  simp [resolveTable]
 
 theorem resolveSimple_again (c : Catalog) (parts : List Name) (hd : defaultOk c = true) (hne : parts ≠ [])
     (i : Name) (t : List Name) (h : resolveSimple c parts = some (i, t)) :
